@@ -561,6 +561,20 @@ func (ev *Evaluator) Eval(e Expr, env *Env) Val {
 			ev.vc = saveVC
 			rng := fmt.Sprintf("(and (<= %s %s) (<= %s %s))", lo.S, kv.S, kv.S, hi.S)
 			if x.Forall {
+				// reads at the bare bound variable make good instantiation triggers; with none present the
+				// solver chooses (arithmetic in an index makes poor triggers, so contracts are best written
+				// over absolute positions)
+				pats := ""
+				seen := map[string]bool{}
+				for _, m := range regexp.MustCompile(`\(select (\|[^|]*\||[^\s()|]+) `+regexp.QuoteMeta(kv.S)+`\)`).FindAllString(body.S, -1) {
+					if !seen[m] {
+						seen[m] = true
+						pats += " :pattern (" + m + ")"
+					}
+				}
+				if pats != "" {
+					return Leaf{T: T{S: fmt.Sprintf("(forall ((%s Int)) (! (=> %s %s)%s))", kv.S, rng, body.S, pats), Sort: sortBool}}
+				}
 				return Leaf{T: T{S: fmt.Sprintf("(forall ((%s Int)) (=> %s %s))", kv.S, rng, body.S), Sort: sortBool}}
 			}
 			return Leaf{T: T{S: fmt.Sprintf("(exists ((%s Int)) (and %s %s))", kv.S, rng, body.S), Sort: sortBool}}
@@ -740,6 +754,25 @@ func (ev *Evaluator) call(x *ECall, env *Env) Val {
 			return Leaf{T: o.Tag}
 		}
 		ev.fail("tag of untagged value")
+	case "arr":
+		// arr(a): a fixed-size array of scalars as an SMT array (the same store chain the generator
+		// builds when the code slices that array), so that a[k] with a bound variable k is a select
+		ag, ok := ev.Eval(x.Args[0], env).(Agg)
+		if !ok {
+			ev.fail("arr: expected an array value")
+		}
+		t := T{S: "emptyArr", Sort: sortArr}
+		for k, e := range ag.Elems {
+			l, isLeaf := e.(Leaf)
+			if !isLeaf {
+				ev.fail("arr: array of non-scalars")
+			}
+			t = T{S: fmt.Sprintf("(store %s %d %s)", t.S, k, ev.specOf(l).S), Sort: sortArr}
+		}
+		if ev.vc != nil {
+			t = ev.vc.define("snap", t)
+		}
+		return &SliceV{Arr: t, Off: intT64(0), Len: intT64(int64(len(ag.Elems))), Cap: intT64(int64(len(ag.Elems))), Elem: MT{8, false}, IsString: true}
 	case "fbits":
 		// the IEEE 754 bit pattern of a floating-point value
 		f, ok := ev.Eval(x.Args[0], env).(FloatV)
@@ -769,6 +802,15 @@ func (ev *Evaluator) call(x *ECall, env *Env) Val {
 			return ag.Elems[0]
 		}
 		return ag.Elems[1]
+	case "fmtflag":
+		// fmtflag(c): the flag c of the fmt.State handed to Format (trusted fmt model)
+		c := ev.specOf(ev.Eval(x.Args[0], env))
+		return Leaf{T: T{S: fmt.Sprintf("(fmtFlag %s)", c.S), Sort: sortBool}}
+	case "fmtwid", "fmtprec":
+		mt := MT{64, true}
+		return Leaf{T: T{S: map[string]string{"fmtwid": "fmtWid", "fmtprec": "fmtPrec"}[x.Fn], Sort: sortInt}, MT: &mt}
+	case "fmthaswid", "fmthasprec":
+		return Leaf{T: T{S: map[string]string{"fmthaswid": "fmtHasWid", "fmthasprec": "fmtHasPrec"}[x.Fn], Sort: sortBool}}
 	case "from":
 		// from(s, k): the slice or string s[k:]
 		sl, ok := ev.Eval(x.Args[0], env).(*SliceV)
